@@ -4,12 +4,15 @@ import (
 	"encoding/json"
 	"fmt"
 	"os"
+	"runtime/debug"
+	"runtime/pprof"
 	"strings"
 
 	"golang.org/x/tools/go/ssa"
 )
 
 func main() {
+	debug.SetGCPercent(200)
 	if len(os.Args) < 2 {
 		fmt.Fprintln(os.Stderr, "usage: verif run <pkg> <Harness> | check <ID> [--tier quick|thorough] | replay <file>")
 		os.Exit(2)
@@ -57,6 +60,11 @@ func cmdRun(args []string) {
 			fmt.Sscan(kv[i+1:], &v)
 			e.bounds[k] = v
 		}
+	}
+	if p := os.Getenv("VERIF_PROF"); p != "" {
+		f, _ := os.Create(p)
+		pprof.StartCPUProfile(f)
+		defer pprof.StopCPUProfile()
 	}
 	hr := e.Explore(fn, ExploreOpts{MaxViolationsPerLabel: 1, SchedChoice: os.Getenv("VERIF_SCHED") != ""})
 	out := map[string]interface{}{
